@@ -16,7 +16,7 @@ LEVEL = 'exploration'
 TECHNIQUE = ('metamorphic over file formats: Hypothesis-generated data expressible in JSON, JSON5, YAML and plist is '
              'serialised with independent libraries, loaded by graphtage and compared across all 16 ordered format pairs')
 RULE = ("Cases: a document x (string keys, lists, mappings, booleans, 64-bit ints, finite floats, strings without "
-        "XML-illegal control characters, no null) and a mutated document c, x build options. x and c are written with "
+        "XML-illegal control characters, no null) and a second document c (independent, mutated, or x with one scalar re-typed to an equal-looking value: true <-> 1, 1 <-> '1'), x build options. Strings include spellings that look like numbers or special scalars in some syntax ('1e5', '0x1F', 'on', '2001-01-01'). x and c are written with "
         "json.dumps (as .json and .json5), yaml.safe_dump and plistlib.dumps; a file is kept only if the independent "
         "parser of its format (json.loads, json5.loads, yaml.safe_load, plistlib.loads) reads back exactly the document "
         "(otherwise the case is discarded and counted). Oracle for every ordered pair of formats (f, g): canonical "
@@ -39,7 +39,10 @@ FMTS = ['json', 'json5', 'yaml', 'plist']
 xmlsafe = st.text(alphabet=st.characters(min_codepoint=32, max_codepoint=0x2FF, blacklist_characters='\x7f'), max_size=6)
 scal = st.one_of(st.booleans(), st.integers(-2 ** 63, 2 ** 63 - 1), st.integers(-5, 300),
                  st.floats(allow_nan=False, allow_infinity=False), st.sampled_from([0.5, -0.0, 1e10, 1.0, 1e-7]), xmlsafe,
-                 st.sampled_from(['1', 'true', 'null', 'yes', '~', '1.0', '', ' ', 'a: b', '- x', '#c', "'", '"']))
+                 st.sampled_from(['1', 'true', 'null', 'yes', '~', '1.0', '', ' ', 'a: b', '- x', '#c', "'", '"']),
+                 # strings that look like numbers / special scalars in one syntax or another
+                 st.sampled_from(['1e5', '12E3', '1.5e3', '7e-2', '0x1F', '0o17', '1_000', '+1', '.5', '1.', 'NaN', '.inf', 'on', 'No',
+                                  '2001-01-01', '1:30', '0b11', '1e+5', 'Infinity', '-0', '00', '1,5']))
 
 
 def cdocs(max_leaves):
@@ -48,16 +51,36 @@ def cdocs(max_leaves):
 
 
 @st.composite
+def retyped(draw, x):
+    """x with one scalar replaced by an equal-looking scalar of another type (true <-> 1, 1 <-> 1.0 <-> "1", ...)"""
+    from .c02 import get, paths, put
+    leaves = [p for p in paths(x) if not isinstance(get(x, p), (list, dict))]
+    if not leaves:
+        return x
+    p = leaves[draw(st.integers(0, len(leaves) - 1))]
+    v = get(x, p)
+    if isinstance(v, bool):
+        nv = draw(st.sampled_from([int(v), str(v).lower(), float(v)]))
+    elif isinstance(v, int):
+        nv = draw(st.sampled_from([bool(v) if v in (0, 1) else str(v), str(v), float(v)]))
+    elif isinstance(v, float):
+        nv = draw(st.sampled_from([str(v), int(v) if v == int(v) and abs(v) < 2 ** 53 else str(v)]))
+    else:
+        nv = draw(st.sampled_from([True, 1, v + ' ']))
+    return put(x, p, nv)
+
+
+@st.composite
 def cases(draw, max_leaves):
     D = cdocs(max_leaves)
     x = draw(D)
-    c = draw(st.one_of(D, gen.mutate(x, D, scal)))
+    c = draw(st.one_of(D, gen.mutate(x, D, scal), retyped(x), retyped(x)))
     ds, le = draw(gen.options)
     return {'x': x, 'c': c, 'ds': ds, 'le': le}
 
 
 def jobs(tier):
-    n, ml = (20, 8) if tier == 'quick' else (320, 14)
+    n, ml = (36, 8) if tier == 'quick' else (320, 14)
     return [{'n': n, 'max_leaves': ml, 'shard': s} for s in range(16)]
 
 
